@@ -1,7 +1,7 @@
 """C08 - state replies are decoded into exactly what the device reported."""
 from hypothesis import strategies as st
 
-from .. import gen
+from .. import gen, vclock
 from ..engine import Sub, Violation
 from ..fake import env, net, ops
 from ..ref import replies
@@ -19,6 +19,7 @@ RULE = ("case = (reply kind, field values, noise salt, session); non-trivial = a
 ASSUMPTIONS = [
     "reply layout of DESIGN appendix A.2, pinned by get_state_response / get_breeze_state / get_shutter_state_response / login captures",
     "amps = watts/220 within 0.05 and rendered to one decimal; temperature = tenths/10 within 1e-9",
+    "the host zone (UTC or one of 4 others under time_machine) must not influence the decoded values",
     "domains as stated: times 0..86399, power 0..65535, position 0..255, fan 0..3, swing 0..1, mode 1..5, remote id 1..8 ASCII characters",
 ]
 
@@ -112,7 +113,13 @@ async def via_api(case):
 
 def body_api(rep, case):
     kind, f = case["reply"], case["fields"]
-    status, res, frames = net.run(via_api(case))
+    zone = case.get("zone", "UTC")
+    if zone != "UTC":
+        rep.label("host-zone-not-utc")
+        with vclock.frozen(zone, 2024, 7, 1, 12, 0, 0):
+            status, res, frames = net.run(via_api(case))
+    else:
+        status, res, frames = net.run(via_api(case))
     rep.tick(f"api/{kind}", key=(kind, f), nontrivial=nontrivial(kind, f), sample=case, labels=(f"reply={kind}",))
     if status != "ok":
         raise Violation(f"C08/{kind}/well-formed-reply-not-parsed/{type(res).__name__ if res is not None else status}", case,
@@ -124,6 +131,16 @@ def body_api(rep, case):
 
 
 def body_direct(rep, case):
+    # what the device encoded does not depend on where the host is: a third of the cases run in another host zone
+    zone = case.get("zone", "UTC")
+    if zone != "UTC":
+        rep.label("host-zone-not-utc")
+        with vclock.frozen(zone, 2024, 7, 1, 12, 0, 0):
+            return _body_direct(rep, case)
+    return _body_direct(rep, case)
+
+
+def _body_direct(rep, case):
     from aioswitcher.api import messages
     kind, f = case["reply"], case["fields"]
     rep.tick(f"direct/{kind}", key=(kind, f, case["salt"]), nontrivial=True if kind == "login" else nontrivial(kind, f), sample=case,
@@ -157,9 +174,10 @@ FIELDS = {
 
 def strat(kind, api):
     def build():
-        return st.builds(lambda f, salt, sess, dev_id, ll: {"reply": kind, "fields": f, "salt": salt, "session": sess,
-                                                             "device_id": dev_id, "login_len": ll},
-                         FIELDS[kind], st.integers(1, 250), gen.sessions, gen.device_ids, gen.login_lens)
+        return st.builds(lambda f, salt, sess, dev_id, ll, z: {"reply": kind, "fields": f, "salt": salt, "session": sess,
+                                                                "device_id": dev_id, "login_len": ll, "zone": z},
+                         FIELDS[kind], st.integers(1, 250), gen.sessions, gen.device_ids, gen.login_lens,
+                         st.sampled_from(["UTC", "UTC", "Asia/Jerusalem", "America/New_York", "Asia/Kathmandu", "Pacific/Kiritimati"]))
     return build
 
 
